@@ -24,6 +24,8 @@ structure Chan where
   err : Bytes := []              -- in_stderr_buffer
   combine : Bool := false
   eof : Bool := false
+  closed : Bool := false         -- Channel.closed (local close(), peer CLOSE, or the transport went away)
+  linked : Bool := true          -- still registered in Transport._channels (messages for its id reach it)
   exit : Option Nat := none      -- exit_status (None ≙ -1)
   /-- old code only: data taken out of the stderr buffer by set_combine_stderr but not yet fed into stdout -/
   pending : Bytes := []
@@ -41,13 +43,21 @@ inductive Act where
   | recv (c : Nat) (n : Nat)
   | recvErr (c : Nat) (n : Nat)
   | setCombine (c : Nat) (b : Bool)
+  | close (c : Nat)                            -- the application calls Channel.close()
+  | remoteClose (c : Nat)                      -- CHANNEL_CLOSE from the peer: _handle_close → _unlink_channel
+  | open (c : Nat)                             -- a new channel is registered under id c (only if c is not live)
   | setCombineOldA (c : Nat)                   -- old set_combine_stderr(True), region under the lock
   | setCombineOldB (c : Nat)                   -- old set_combine_stderr(True), the feed after releasing the lock
   deriving DecidableEq, Repr
 
 def Act.chan : Act → Nat
   | .data c _ | .ext c _ _ | .eof c | .exitStatus c _ | .recv c _ | .recvErr c _ | .setCombine c _
-  | .setCombineOldA c | .setCombineOldB c => c
+  | .close c | .remoteClose c | .open c | .setCombineOldA c | .setCombineOldB c => c
+
+/-- messages of the peer (dispatched by the run loop), as opposed to calls of the application -/
+def Act.arrival : Act → Bool
+  | .data _ _ | .ext _ _ _ | .eof _ | .exitStatus _ _ | .remoteClose _ => true
+  | _ => false
 
 /-- BufferedPipe.read(n, timeout) on a buffer (C26): nonblocking view -/
 def readBuf (buf : Bytes) (closed : Bool) (n : Nat) : Res × Bytes :=
@@ -67,44 +77,100 @@ def chanStep (ch : Chan) : Act → Chan
   | .eof _ => { ch with eof := true }
   | .exitStatus _ v => { ch with exit := some v }
   | .recv _ n =>
-    let (r, rest) := readBuf ch.out ch.eof n
+    let (r, rest) := readBuf ch.out (ch.eof || ch.closed) n
     { ch with out := rest, outRead := ch.outRead ++ r.bytes, last := some r }
   | .recvErr _ n =>
-    let (r, rest) := readBuf ch.err ch.eof n
+    let (r, rest) := readBuf ch.err (ch.eof || ch.closed) n
     { ch with err := rest, errRead := ch.errRead ++ r.bytes, last := some r }
   | .setCombine _ b =>
     if b && !ch.combine then { ch with combine := true, out := ch.out ++ ch.err, err := [] }
     else { ch with combine := b }
+  | .close _ => { ch with closed := true }
+  | .remoteClose _ => { ch with closed := true, linked := false }
+  | .open _ => ch
   | .setCombineOldA _ =>
     if !ch.combine then { ch with combine := true, pending := ch.pending ++ ch.err, err := [] } else ch
   | .setCombineOldB _ => { ch with out := ch.out ++ ch.pending, pending := [] }
 
-/-- the transport: channel id ↦ channel (`none`: no such channel — the message is not delivered anywhere) -/
-abbrev Mux := Nat → Option Chan
+/-- the transport: channel id ↦ channel (`none`: that id was never used), and whether the run loop is still going -/
+structure Mux where
+  tab : Nat → Option Chan
+  alive : Bool := true
 
-def step (m : Mux) (a : Act) : Mux :=
-  match m a.chan with
+/-- the run loop ended: every channel is unlinked and closed (`Channel._unlink` → `_set_closed`); buffered data stays
+readable -/
+def kill (ch : Chan) : Chan := { ch with closed := true, linked := false }
+
+def setTab (m : Mux) (c : Nat) (ch : Chan) : Mux := { m with tab := fun i => if i = c then some ch else m.tab i }
+
+/-- the run loop hits a message for an id that was never used: it ends, every channel is unlinked and closed -/
+def die (m : Mux) : Mux := { tab := fun i => (m.tab i).map kill, alive := false }
+
+/-- a message of the peer for channel `a.chan` (run loop alive) -/
+def deliver (m : Mux) (a : Act) : Mux :=
+  match m.tab a.chan with
+  | none => die m                                               -- "unknown channel"
+  | some ch => if ch.linked then setTab m a.chan (chanStep ch a) else m   -- registered → handler; dead → dropped
+
+/-- a call of the application on its Channel object (registered or not) -/
+def appCall (m : Mux) (a : Act) : Mux :=
+  match m.tab a.chan with
   | none => m
-  | some ch => fun c => if c = a.chan then some (chanStep ch a) else m c
+  | some ch => setTab m a.chan (chanStep ch a)
+
+/-- a fresh channel is registered under id `c`, provided `c` is not live (`_next_channel` never hands out a live id) -/
+def openChan (m : Mux) (c : Nat) : Mux :=
+  match m.tab c with
+  | some ch => if ch.linked then m else setTab m c {}
+  | none => setTab m c {}
+
+/-- Transport.run, channel branch, plus the application's calls -/
+def step (m : Mux) (a : Act) : Mux :=
+  match a with
+  | .open c => if m.alive then openChan m c else m
+  | _ => if a.arrival then (if m.alive then deliver m a else m) else appCall m a
 
 def run (m : Mux) (acts : List Act) : Mux := acts.foldl step m
 def runChan (ch : Chan) (acts : List Act) : Chan := acts.foldl chanStep ch
 
 /-- `k` freshly opened channels with ids 0 … k-1 -/
-def fresh (k : Nat) : Mux := fun c => if c < k then some {} else none
+def fresh (k : Nat) : Mux := { tab := fun c => if c < k then some {} else none }
 
-/-! ## executable channel table (what the driver runs): a list indexed by channel id, refining `Mux` -/
+/-! ## executable channel table (what the driver runs): an association list (newest binding first), refining `Mux` -/
 
-abbrev Table := List (Option Chan)
+structure Table where
+  l : List (Nat × Chan)
+  alive : Bool := true
 
-def Table.toMux (l : Table) : Mux := fun c => (l[c]?).join
+def lookup (l : List (Nat × Chan)) (c : Nat) : Option Chan := (l.find? (fun p => p.1 == c)).map (·.2)
 
-def stepL (l : Table) (a : Act) : Table :=
-  match (l[a.chan]?).join with
-  | none => l
-  | some ch => l.set a.chan (some (chanStep ch a))
+def Table.toMux (t : Table) : Mux := { tab := lookup t.l, alive := t.alive }
 
-def freshL (k : Nat) : Table := List.replicate k (some {})
+def stepL (t : Table) (a : Act) : Table :=
+  match a with
+  | .open c =>
+    if t.alive then
+      match lookup t.l c with
+      | some ch => if ch.linked then t else { t with l := (c, {}) :: t.l }
+      | none => { t with l := (c, {}) :: t.l }
+    else t
+  | _ =>
+    if a.arrival then
+      if t.alive then
+        match lookup t.l a.chan with
+        | none => { l := t.l.map (fun p => (p.1, kill p.2)), alive := false }
+        | some ch => if ch.linked then { t with l := (a.chan, chanStep ch a) :: t.l } else t
+      else t
+    else
+      match lookup t.l a.chan with
+      | none => t
+      | some ch => { t with l := (a.chan, chanStep ch a) :: t.l }
+
+def freshList : Nat → List (Nat × Chan)
+  | 0 => []
+  | k + 1 => (k, {}) :: freshList k
+
+def freshL (k : Nat) : Table := { l := freshList k }
 
 /-! ## what the peer sent, as a function of the history alone -/
 
@@ -146,6 +212,13 @@ def keepsCombining (c : Nat) : List Act → Bool
   | .setCombineOldA _ :: _ => false
   | .setCombineOldB _ :: _ => false
   | _ :: rest => keepsCombining c rest
+
+/-- channel `c` stays registered through the history: the peer does not close it and it is not re-opened -/
+def staysLinked (c : Nat) : List Act → Bool
+  | [] => true
+  | .remoteClose c' :: rest => !(c' == c) && staysLinked c rest
+  | .open c' :: rest => !(c' == c) && staysLinked c rest
+  | _ :: rest => staysLinked c rest
 
 def noOld : List Act → Bool
   | [] => true
